@@ -340,8 +340,20 @@ def evaluate(ctx, group, cases, canary=False):
         for ag, ho in res[n_real:]:
             if (ag, ho) == (False, False):
                 ctx.canaries_caught += 1
+    # name the failing clause group of the (first few) violating cases
+    bad = [i for i, (ag, ho) in enumerate(res[:n_real]) if not ho][:25]
+    why = {}
+    if bad:
+        try:
+            diag = ctx.coq_cases(group + ' diagnosis', REQ, 'diagnose_case', [terms[i] for i in bad], 3, case_ty=CASE_TY)
+            names = ('archive contents (k best distinct / best-first / size bound / keys mirror items / Pareto exactness / '
+                     'mutual non-domination)', 'best archived fitness got worse', 'keeper counters / improvement flags')
+            for i, d in zip(bad, diag):
+                why[i] = '; '.join(n for n, ok in zip(names, d) if not ok)
+        except Exception:
+            pass
     out = []
-    for (case, obs), (ag, ho) in zip(metas, res[:n_real]):
+    for idx, ((case, obs), (ag, ho)) in enumerate(zip(metas, res[:n_real])):
         f = facts(case, obs)
         t = case['target']
         nupd = len(obs)
@@ -355,8 +367,8 @@ def evaluate(ctx, group, cases, canary=False):
                   new_best_but_not_flagged_improved=min(f['new_best_unflagged'], 3))
         if not ho:
             ctx.violate(group, {'case': case, 'observed': obs},
-                        'archive contents / counters observed after an update contradict C08 (k best, best-first, '
-                        'size bound, Pareto exactness, non-domination, best never worse, counters)')
+                        'observed after an update, contradicting C08: ' + (why.get(idx) or
+                        'k best / best-first / size bound / Pareto exactness / non-domination / best never worse / counters'))
         if not ag:
             ctx.disagree(group, {'case': case, 'observed': obs}, 'model prediction and implementation differ')
         out.append((case, obs, ag, ho))
